@@ -7417,16 +7417,19 @@ typename SoPlexBase<R>::RangeType SoPlexBase<R>::_rangeTypeReal(const R& lower,
 {
    assert(lower <= upper);
 
-   if(lower <= R(-infinity))
+   // the same threshold as _rangeTypeRational (_rationalPosInfty is the INFTY parameter): with a non-default INFTY the
+   // global constant classified a bound as finite that the rational side treats as infinite
+
+   if(lower <= -realParam(SoPlexBase<R>::INFTY))
    {
-      if(upper >= R(infinity))
+      if(upper >= realParam(SoPlexBase<R>::INFTY))
          return RANGETYPE_FREE;
       else
          return RANGETYPE_UPPER;
    }
    else
    {
-      if(upper >= R(infinity))
+      if(upper >= realParam(SoPlexBase<R>::INFTY))
          return RANGETYPE_LOWER;
       else if(lower == upper)
          return RANGETYPE_FIXED;
